@@ -1135,6 +1135,8 @@ class Printer:
                 self.emit(pad + "let nz%da = 'raw\nline\nbreaks';" % k)
                 self.emit(pad + "let nz%db = [1,\n" % k + pad + "  2,\n\n" + pad + "  3];")
                 self.emit(pad + "let nz%dc = 'x${\n" % k + pad + "  nz%db.len()\n" % k + pad + "}y' +\n" + pad + "  'z';")
+                # a declaration without an initialiser (nothing of it may stick to what follows, e.g. as the name of later anonymous functions)
+                self.emit(pad + "let nz%dd;" % k)
             self.emit("")
             self.emit(pad + "// noise")
         typed = self.layout == "typed"
